@@ -39,6 +39,8 @@ type Chain struct {
 	// Hook is called (chain locked) before every RPC is served; it may mutate the chain through the *Locked methods
 	// and may return an error, which is then the RPC's result (fault injection).
 	Hook func(c *Chain, call Call) error
+	// CallHandler, when set, answers eth_call (chain locked; the state is that of the visible tip).
+	CallHandler func(c *Chain, call ethereum.CallMsg) ([]byte, error)
 	// MaxFinalized is the highest finalized pointer ever reported to the node.
 	MaxFinalizedReported uint64
 	History              []Call // every RPC served, in order (bounded)
@@ -81,7 +83,7 @@ func (c *Chain) setLogsLocked(n uint64, logs []types.Log) {
 		if l.Index == 0 {
 			l.Index = uint(i)
 		}
-		l.TxIndex = uint(i)
+		l.TxIndex = uint(i)*3 + 1 // deliberately not the log index
 		out[i] = l
 	}
 	c.logs[n] = out
@@ -358,6 +360,9 @@ func (c *Chain) CallContract(ctx context.Context, call ethereum.CallMsg, blockNu
 	defer c.mu.Unlock()
 	if err := c.enter(Call{Method: "CallContract"}); err != nil {
 		return nil, err
+	}
+	if c.CallHandler != nil {
+		return c.CallHandler(c, call)
 	}
 	return make([]byte, 32), nil // ABI-encoded zero (uint / address / bytes32)
 }
